@@ -7,7 +7,7 @@
 //	p.*  pipeline ops executed directly on the real command pipelines of three real stores
 //	     (verif accessors of raftstore/store): p.next p.reg p.apply p.poll p.rm p.state
 //	c.*  cluster ops on the real 3-store raft cluster of kit.go: c.campaign c.pump c.deliver
-//	     c.drop c.dup c.tick c.iso c.heal c.propose c.read c.probe, all answering "ok", and
+//	     c.drop c.dup c.tick c.iso c.heal c.propose c.read c.probe c.wait c.restart, all answering "ok", and
 //	     c.verdict, which answers with what the real code did at every pipeline-level event
 //	     since the previous verdict (proposal ids drawn, waiters registered, entries applied on
 //	     each store, results handed to waiters, leader checks, reads) followed by the verdicts
@@ -80,7 +80,13 @@ type directState struct {
 }
 
 func (e *engine) Exec(ops []string) []string {
-	k := newKit()
+	disk := false
+	for _, op := range ops {
+		if strings.HasPrefix(op, "c.restart") {
+			disk = true
+		}
+	}
+	k := newKit(disk)
 	os.WriteFile(tracePath, nil, 0o644)
 	ds := &directState{waiters: map[[2]int]*store.VerifProposalWaiter{}}
 	out := make([]string, len(ops))
@@ -306,6 +312,12 @@ func (e *engine) exec1(k *kit, ds *directState, f []string) (res string) {
 			return "bad-op"
 		}
 		k.probe(s, uint64(arg(f, 2)), uint64(arg(f, 3)), uint64(arg(f, 4)), arg(f, 5) == 1)
+		return "ok"
+	case "c.restart": // c.restart store : stop and restart the raftstore layer of a store (raft logs on disk)
+		if !validStore(s) {
+			return "bad-op"
+		}
+		k.restart(s)
 		return "ok"
 	case "c.wait": // let every outstanding read run into its answer (ReadCommand gives up after 3 s)
 		for _, c := range k.calls {
